@@ -570,8 +570,10 @@ def check_user(case):
     d2 = dict(id="u2", names=["A", "B"], bonds=[(0, 1, 0.3)], angles=[])
     tmpl3 = {"A": (0.0, 0.0, 0.0), "B": (0.31, 0.0, 0.02), "C": (0.45, 0.27, 0.0)}
     for give_t, give_v3, give_v2 in itertools.product((False, True), repeat=3):
-        for order, skip, split in itertools.product(("volumes-first", "template-first"), (False, True), (False, True)):
+        for order, skip, split in itertools.product(("volumes-first", "template-first"), (False, True), (False, True, "repeat")):
             if split and skip:
+                continue
+            if split == "repeat" and not give_t:
                 continue
             blocks = []
             tblock = ("[ template ]\nresname R\n[ atoms ]\n" + "".join(f"{n} P {p[0]} {p[1]} {p[2]}\n" for n, p in tmpl3.items()) + "[ bonds ]\nA B\nB C\n") if give_t else ""
@@ -582,7 +584,12 @@ def check_user(case):
                 vlines.append("Q 0.33")
             vblock = ("[ volumes ]\n" + "\n".join(vlines) + "\n") if vlines else ""
             bld = (vblock + tblock) if order == "volumes-first" else (tblock + vblock)
-            if split:
+            tmpl3b = {n: (p[0] * 1.05, p[1] * 1.05, p[2] + 0.01) for n, p in tmpl3.items()}
+            if split == "repeat":
+                # a second build file gives a template for the same residue again (refined coordinates) and no size: the
+                # size given in the first file still counts
+                bld = [bld, "[ template ]\nresname R\n[ atoms ]\n" + "".join(f"{n} P {p[0]} {p[1]} {p[2]}\n" for n, p in tmpl3b.items()) + "[ bonds ]\nA B\nB C\n"]
+            elif split:
                 # the same directives spread over two build files, in the same order
                 bld = [vblock, tblock] if order == "volumes-first" else [tblock, vblock]
             evals += 1
@@ -596,10 +603,13 @@ def check_user(case):
             viols += v
             mm = top.molecules[0]
             if give_t and tkeys[0] in mm.templates:
-                cog = np.mean(np.array(list(tmpl3.values())), axis=0)
-                for n, p in tmpl3.items():
-                    if not np.abs(np.asarray(mm.templates[tkeys[0]][n]) - (np.array(p) - cog)).max() <= 1e-9:
-                        viols.append(dict(assertion="user-template-used-unchanged", tags=[], message=f"atom {n}: {mm.templates[tkeys[0]][n]} expected {np.array(p) - cog}", case=case1, detail={}))
+                def deviation(t):
+                    cog = np.mean(np.array(list(t.values())), axis=0)
+                    return max(np.abs(np.asarray(mm.templates[tkeys[0]][n]) - (np.array(p) - cog)).max() for n, p in t.items())
+                # two user templates for one residue: which of the two wins is not stated, it has to be one of them
+                dev = min(deviation(t) for t in ([tmpl3, tmpl3b] if split == "repeat" else [tmpl3]))
+                if not dev <= 1e-9:
+                    viols.append(dict(assertion="user-template-used-unchanged", tags=[], message=f"template {dict(mm.templates[tkeys[0]])} is not the centred user template (deviation {dev})", case=case1, detail={}))
                 regenerated = [r for r in recs if sorted(r["block"].nodes) == ["A", "B", "C"]]
                 if regenerated:
                     viols.append(dict(assertion="user-template-not-regenerated", tags=[], message="a template was optimised for a residue with a user template", case=case1, detail={}))
